@@ -544,6 +544,22 @@ def run(ctx):
                 if not names:
                     continue
                 n_bind += 1
+                # a local that carries the field on one path and a constant on another: the choice may depend on the presence of that very
+                # field only (`x = None; if src.f is not None: x = src.f.value`), never on another field of the source
+                for x in [x for x in ast.walk(a) if isinstance(x, ast.Name) and x.id != srcp]:
+                    defs = [(d, dn) for _v, d, dn in rd.reaching(node, x.id) if isinstance(d, ast.AST) and dn is not None]
+                    if len(defs) < 2 or not any(isinstance(d, ast.Constant) for d, dn in defs):
+                        continue
+                    for d, dn in defs:
+                        carried = set(y.attr for y in ast.walk(d) if isinstance(y, ast.Attribute))
+                        if isinstance(d, ast.Constant) or not carried & set(want):
+                            continue
+                        for tn, lab in dominating_edges(gg, dn):
+                            tattrs = set(y.attr for y in ast.walk(tn.stmt) if isinstance(y, ast.Attribute)) | set(y.id for y in ast.walk(tn.stmt) if isinstance(y, ast.Name))
+                            foreign = set(y.attr for y in ast.walk(tn.stmt) if isinstance(y, ast.Attribute) and root(y) == srcp) - carried
+                            ctx.check(bool(tattrs & (carried | {x.id})) or not foreign, 'C05.R2', 'ObjectFactory.%s|%s(%s=)|kept only under a test of another field' % (mname, cn, p), '%s:%s ObjectFactory.%s' % (PIEFAC, tn.line, mname),
+                                      '%s is carried over whenever it is present' % p,
+                                      'constructor parameter %s of %s receives the %s field only when %s holds - a test of other fields (%s) of the source; for the other values of those fields the stored / returned object loses the value it was given' % (p, cn, '/'.join(sorted(carried & set(want))), ' '.join(U(tn.stmt).split())[:70], ', '.join(sorted(foreign))))
                 ctx.check(any(w in names for w in want), 'C05.R2', 'ObjectFactory.%s|%s(%s=)' % (mname, cn, p), '%s:%s ObjectFactory.%s' % (PIEFAC, c.lineno, mname),
                           '%s <- %s' % (p, sorted(names & set(want))), 'constructor parameter %s of %s receives %s, which does not carry the %s field' % (p, cn, U(a), '/'.join(want)))
     ctx.count('converter_bindings', n_bind, 25)
